@@ -51,6 +51,8 @@ EVENTS = {
     "RM1": ["RM", 1, 30.0],
     "SUSRM1": ["M", [["SUS"], ["RM", 1, 30.0]]],  # non-runner declared in a SUSPENDED book with a new version
     "RM2": ["RM", 2, 20.0],
+    "RM1T3": ["M", [["RM", 1, 30.0], ["T", 2, [[3.1, 8]]]]],  # the removal update also carries trades on the other runner
+    "RM2T21": ["M", [["RM", 2, 20.0], ["T", 1, [[2.1, 8]]]]],
     "RM2s": ["RM", 2, 2.0],
     "CL": ["CL", {1: "WINNER", 2: "LOSER"}],
     "CL2": ["CL", {1: "LOSER", 2: "WINNER"}],
@@ -435,6 +437,11 @@ class Life:
                 by_ctx.setdefault(o.lookup, []).append(o)
             for lookup, orders in by_ctx.items():
                 if (lookup[0], lookup[1], lookup[2], id(st)) in self.tainted:
+                    # a trade that was given an order after it had completed: counts and trade status are outside
+                    # the domain, but the runner must still be released once every order on it is complete
+                    self.c("clause:C10.d")
+                    if all(o.complete for o in orders) and st.get_runner_context(*lookup).live_trades:
+                        self.v("C10.d", ("lock-out", "reused-trade", _evkinds(self.hist, self.upd)), "every order on runner %s is complete but %d trade(s) are still charged as live (a completed trade was given a further order)" % (lookup[1:], len(st.get_runner_context(*lookup).live_trades)), once=(lookup, "reused-lock"))
                     continue
                 rc = st.get_runner_context(*lookup)
                 trades = []
